@@ -67,6 +67,8 @@ func Run(run *vh.Run) {
 	run.Floor("twin comparisons with a state effect", run.Get("twin_comparisons_with_effect"), int64(run.N(250, 3000)))
 	run.Floor("forged signed messages", run.Get("signed_messages_forged"), int64(run.N(50, 600)))
 	run.Floor("valid signed messages accepted", run.Get("signed_messages_valid_accepted"), int64(run.N(15, 150)))
+	run.Floor("own signed messages in a denomination other than the bond denomination", run.Get("signed_messages_in_other_denomination"), int64(run.N(4, 60)))
+	run.Floor("comparisons whose rewards are paid in several denominations", run.Get("twin_comparisons_paying_rewards_in_several_denominations"), int64(run.N(20, 300)))
 	run.Floor("view answers compared with native queries", run.Get("views_compared"), int64(run.N(350, 4000)))
 	run.Floor("receipt logs compared", run.Get("logs_compared"), int64(run.N(280, 3500)))
 	run.Floor("native staking transactions interleaved", run.Get("native_staking_txs_interleaved"), int64(run.N(110, 1400)))
